@@ -22,7 +22,7 @@ txt = ("### 6.1 Seeded changes from independent agents\n"
        "Each change was produced by a fresh sub-agent that saw only the property text and a scratch worktree, then confirmed by\n"
        "`tools/ingest_seed.sh` in a scratch copy: patch applies, repository suite still passes, the agent's demo passes on the clean tree\n"
        "and fails on the changed tree; `our_checks` in `seeded/<id>/meta.json` records the quick checks run against the changed tree.\n"
-       "%d changes, %d detected by the quick tier of a check; the others carry a note in their meta.json (outside the property's domain / scope).\n\n"
+       "%d changes, %d detected by the quick tier of a check; the others carry a note in their meta.json (outside the property's domain or scope, or detected by the thorough tier only).\n\n"
        "| seed | files | change (from the agent's notes) | repo suite | detected by (quick) | first signature |\n|-|-|-|-|-|-|\n" % (len(rows), sum(1 for r in rows if '| — ' not in r))) + "\n".join(rows) + "\n"
 p = '/verif/DESIGN.md'
 s = open(p).read()
